@@ -17,7 +17,9 @@ open C12M
     package and every history the behaviour of every target after every step equals the last-writer-wins reference.
     It does NOT hold: an instruction through a handle whose mocker was cancelled and has since been replaced in the
     builder's cache re-installs the stale mocker, and later instructions through the live handle only mutate a When
-    that is no longer installed (Findings/C12Stale.lean `stale_handle_breaks_lww`, known finding `stale-handle`). -/
+    that is no longer installed (Findings/C12Stale.lean `stale_handle_breaks_lww`, known finding `stale-handle`); and
+    Cancel through one method of a two-method interface variable restores the whole variable, reverting the other
+    method's configuration (`iface_cancel_one_method_history`, known finding `iface-cancel-one-method`). -/
 def RefinesAll : Prop :=
   ∀ (p : Pkg) (ops : List Op), behRows (run fixed (initP p) ops) = Lww.run (Lww.initP p) ops
 
@@ -28,7 +30,9 @@ def RefinesAll : Prop :=
     supersedes the callback (with a fresh configuration), stub instructions given through repeated lookups or kept
     handles accumulate, Cancel and Reset restore the original, variables hold the last Set value and get their value
     back, a Pkg override is used by exactly the next lookup and names then resolve in the package that issued it.
-    Missing w.r.t. `RefinesAll`: histories that use a stale handle. -/
+    The hypothesis also excludes every op that addresses the two-method interface variable (`opI2`).
+    Missing w.r.t. `RefinesAll`: histories that use a stale handle, histories that address the two-method interface
+    variable (its model is tied to the code by the differential run only). -/
 theorem refines_lww_partial (p : Pkg) (ops : List Op) (h : histLive fixed (initP p) ops = true) :
     behRows (run fixed (initP p) ops) = Lww.run (Lww.initP p) ops :=
   run_sim ops _ _ (inv_initP p) h
@@ -42,13 +46,14 @@ example : histLive fixed (initP .p0) [.keep 0 (.fn false), .on 0 (.stub (.ret 1)
     ∧ histLive fixed (initP .p0) [.keep 0 (.fn false), .on 0 (.stub (.ret 1)), .on 0 .cancel, .keep 1 (.fn false),
       .on 1 (.stub (.ret 3)), .on 0 (.stub (.ret 2))] = false := by decide
 
-/-- **Refinement, every instruction preceded by its own lookup** (no kept handles): full strength, no hypothesis on the
-    state — `histLive` holds for every history without `on` ops. -/
-theorem refines_lww (p : Pkg) (ops : List Op) (h : ∀ op ∈ ops, isOn op = false) :
+/-- **Refinement, every instruction preceded by its own lookup** (no kept handles, single-method interface variable):
+    no hypothesis on the state — `histLive` holds for every history without `on` ops and without ops on the two-method
+    interface variable. -/
+theorem refines_lww (p : Pkg) (ops : List Op) (h : ∀ op ∈ ops, isOn op = false ∧ opI2 op = false) :
     behRows (run fixed (initP p) ops) = Lww.run (Lww.initP p) ops :=
   refines_lww_partial p ops (histLive_of_no_on ops _ h)
 where
-  histLive_of_no_on (ops : List Op) : ∀ (s : State), (∀ op ∈ ops, isOn op = false) → histLive fixed s ops = true := by
+  histLive_of_no_on (ops : List Op) : ∀ (s : State), (∀ op ∈ ops, isOn op = false ∧ opI2 op = false) → histLive fixed s ops = true := by
     induction ops with
     | nil => intro s _; rfl
     | cons op rest ih =>
@@ -56,7 +61,7 @@ where
       rw [histLive_cons, Bool.and_eq_true]
       refine ⟨?_, ih _ (fun o ho => h o (List.mem_cons_of_mem _ ho))⟩
       have := h op (List.mem_cons_self ..)
-      cases op <;> simp_all [opLive, isOn]
+      cases op <;> simp_all [opLive, isOn, opI2]
 
 /-- Every state reached by a history whose kept-handle uses are live is well-formed, related to the reference state and
     has its registers known to the reference (so the hypotheses of the state-level theorems below are met by every
@@ -67,10 +72,10 @@ theorem reachable_inv (p : Pkg) (ops : List Op) (h : histLive fixed (initP p) op
 
 /-- **A repeated lookup continues the existing configuration.**  If the target of the lookup has a live (cached, not
     cancelled) mocker, the lookup returns that very mocker and changes neither any mocker nor what is installed. -/
-theorem lookup_continues (s : State) (hw : WF s) (hd : Handle) (mid : Nat)
+theorem lookup_continues (s : State) (hw : WF s) (hd : Handle) (hn : isI2H hd = false) (mid : Nat)
     (h : live s (tgtOf s.b.pkg hd) = some mid) :
     (lookup s hd).2 = mid ∧ (lookup s hd).1.mks = s.mks ∧ (lookup s hd).1.inst = s.inst := by
-  obtain ⟨_, _, hinst, _, _, hcase⟩ := lookup_ok s hd hw
+  obtain ⟨_, _, hinst, _, _, hcase⟩ := lookup_ok s hd hw hn
   rcases hcase with ⟨hl, hm, _⟩ | ⟨hl, _⟩
   · rw [h] at hl; exact ⟨(Option.some.inj hl).symm, hm, hinst⟩
   · rw [h] at hl; cases hl
@@ -84,12 +89,12 @@ example : live (exec fixed init [.h (.fn false) (.stub (.ret 1))]) (tgtOf .p0 (.
 /-- **…unless it was cancelled.**  If the target has no live mocker (never looked up, or cancelled by Cancel/Reset),
     the lookup yields a brand-new mocker — no When, not cancelled, nothing installed through it — which becomes the
     live one; what is installed does not change. -/
-theorem lookup_after_cancel (s : State) (hw : WF s) (hd : Handle)
+theorem lookup_after_cancel (s : State) (hw : WF s) (hd : Handle) (hn : isI2H hd = false)
     (h : live s (tgtOf s.b.pkg hd) = none) :
     (lookup s hd).2 = s.next ∧ ((lookup s hd).1.mks (lookup s hd).2).when = none ∧
     ((lookup s hd).1.mks (lookup s hd).2).guard = false ∧
     live (lookup s hd).1 (tgtOf s.b.pkg hd) = some (lookup s hd).2 ∧ (lookup s hd).1.inst = s.inst := by
-  obtain ⟨_, _, hinst, _, _, hcase⟩ := lookup_ok s hd hw
+  obtain ⟨_, _, hinst, _, _, hcase⟩ := lookup_ok s hd hw hn
   rcases hcase with ⟨hl, _⟩ | ⟨_, hmid, _, hwhen, hcan, hguard, hslot⟩
   · rw [h] at hl; cases hl
   · exact ⟨hmid, hwhen, hguard, live_some.mpr ⟨by rw [hslot, if_pos rfl], hcan⟩, hinst⟩
@@ -146,6 +151,10 @@ where
       unfold ifaceLookup; split
       · split <;> rfl
       · rfl
+    have hi' : (iface2Lookup s).1.b.pkg = .p0 := by
+      unfold iface2Lookup; split
+      · split <;> rfl
+      · rfl
     cases hd <;> simp only [lookup] <;> (repeat' split) <;> simp_all [reset2CurPkg, setPkg, alloc, structLookup, exportStructLookup]
 
 /-- …while an op that performs no lookup — the rejected `ExportFunc("")`, an instruction through a kept handle — leaves
@@ -162,16 +171,17 @@ theorem pkg_pending (s : State) (p : Pkg) (op : Op) (h : op = .xfEmpty ∨ ∃ r
     Interface.Method, ExportFunc, ExportStruct.Method, Var, UnExportedVar), whether the lookups hit the cache or not: in
     every reachable state, after `Pkg(p)` the lookup `hd1` yields the mocker of `hd1`'s target in package `p`, and the
     lookup `hd2` after it the mocker of `hd2`'s target in the caller's package. -/
-theorem pkg_used_once (s : State) (a : Lww) (hw : WF s) (hr : R s a) (p : Pkg) (hd1 hd2 : Handle) (ins : Instr) :
+theorem pkg_used_once (s : State) (a : Lww) (hw : WF s) (hr : R s a) (p : Pkg) (hd1 hd2 : Handle) (ins : Instr)
+    (hn1 : isI2H hd1 = false) (hn2 : isI2H hd2 = false) :
     let s1 := (step fixed s (.pkg p)).1
     let s2 := (step fixed s1 (.h hd1 ins)).1
     ((lookup s1 hd1).1.mks (lookup s1 hd1).2).tgt = tgtOf p hd1 ∧
     ((lookup s2 hd2).1.mks (lookup s2 hd2).2).tgt = tgtOf .p0 hd2 := by
   intro s1 s2
   obtain ⟨hw1, hr1⟩ := step_sim hw hr (.pkg p) rfl
-  obtain ⟨hw2, _⟩ := step_sim hw1 hr1 (.h hd1 ins) rfl
-  have h1 := lookup_ok s1 hd1 hw1
-  have h2 := lookup_ok s2 hd2 hw2
+  obtain ⟨hw2, _⟩ := step_sim hw1 hr1 (.h hd1 ins) rfl hn1
+  have h1 := lookup_ok s1 hd1 hw1 hn1
+  have h2 := lookup_ok s2 hd2 hw2 hn2
   have hp2 : s2.b.pkg = .p0 := pkg_one_shot s p (.h hd1 ins) .p0 rfl
   refine ⟨tgt_of_ok h1, ?_⟩
   have := tgt_of_ok h2
